@@ -16,13 +16,26 @@ import (
 	intoto "github.com/in-toto/in-toto-golang/in_toto"
 )
 
-// killChildren kills every direct child of this process (used when RunCommand does not return).
+// c14Token marks every command line this harness generates, so that what such a command left
+// behind can be found again.
+var c14Token = fmt.Sprintf("verif-c14-%d", os.Getpid())
+
+// killChildren ends everything a generated command left behind (used when RunCommand does not
+// return): the direct children of this process, every process whose command line carries the token
+// (a background subshell survives the command that started it and is no child of ours any more),
+// and all their descendants (the `head | tr` of such a subshell) - as long as one of them holds a
+// write end of the capture pipes, RunCommand cannot return.
 func killChildren() {
 	me := os.Getpid()
+	type pi struct {
+		ppid int
+		cmd  string
+	}
+	procs := map[int]pi{}
 	ents, _ := os.ReadDir("/proc")
 	for _, e := range ents {
 		pid, err := strconv.Atoi(e.Name())
-		if err != nil {
+		if err != nil || pid == me {
 			continue
 		}
 		b, err := os.ReadFile(fmt.Sprintf("/proc/%d/stat", pid))
@@ -30,13 +43,33 @@ func killChildren() {
 			continue
 		}
 		f := strings.Fields(string(b[strings.LastIndex(string(b), ")")+1:]))
-		if len(f) > 1 {
-			if ppid, _ := strconv.Atoi(f[1]); ppid == me {
-				if cmdline, _ := os.ReadFile(fmt.Sprintf("/proc/%d/cmdline", pid)); !strings.Contains(string(cmdline), "driver") {
-					syscall.Kill(pid, syscall.SIGKILL)
-				}
+		if len(f) < 2 {
+			continue
+		}
+		ppid, _ := strconv.Atoi(f[1])
+		cmdline, _ := os.ReadFile(fmt.Sprintf("/proc/%d/cmdline", pid))
+		procs[pid] = pi{ppid, string(cmdline)}
+	}
+	doomed := map[int]bool{}
+	for pid, p := range procs {
+		if strings.Contains(p.cmd, "driver") && p.ppid == me {
+			continue // the model driver is a child of this process too
+		}
+		if p.ppid == me || strings.Contains(p.cmd, c14Token) {
+			doomed[pid] = true
+		}
+	}
+	for changed := true; changed; {
+		changed = false
+		for pid, p := range procs {
+			if !doomed[pid] && doomed[p.ppid] {
+				doomed[pid] = true
+				changed = true
 			}
 		}
+	}
+	for pid := range doomed {
+		syscall.Kill(pid, syscall.SIGKILL)
 	}
 }
 
@@ -104,6 +137,7 @@ func numOf(v any) int {
 func init() {
 	regOp(&Op{Name: "runcmd", Impl: func(a map[string]any) any {
 		var sb strings.Builder
+		sb.WriteString(": " + c14Token + "; ")
 		wl := a["writes"].([]any)
 		bgLast, _ := a["bg_last"].(bool)
 		pal := str(a["pal"])
